@@ -32,7 +32,11 @@ type helloCase struct {
 
 var poolNames = []string{"sni", "alpn", "sv13", "sv12+13", "sv12", "grease-ext", "unknown-empty", "padding512", "ech-unknown-id", "ech-known-id-garbage", "sv10-12", "alpn-long", "sni-mixed-case",
 	// not part of the ordered-selection product (dedicated family below): ECH extensions naming a HELD config id whose encapsulated key cannot be used
-	"ech-known-id-enc31", "ech-known-id-enc33", "ech-known-id-enc65", "ech-known-id-enc-zero32", "ech-known-id-enc-low-order"}
+	"ech-known-id-enc31", "ech-known-id-enc33", "ech-known-id-enc65", "ech-known-id-enc-zero32", "ech-known-id-enc-low-order",
+	// a held config id together with a cipher suite that config does not list (another KDF, an unknown AEAD): no key is selected
+	"ech-known-id-kdf2", "ech-known-id-aead4", "ech-known-id-aead-ffff",
+	// an ALPN list with RFC 8701 GREASE ids (reported like any other id)
+	"alpn-grease"}
 
 const productPool = 13
 
@@ -72,6 +76,14 @@ func poolExt(i int) tlsref.Ext {
 		return tlsref.ECHOuter(1, 1, 42, tlsref.DetBytes("enc65", 65), tlsref.DetBytes("garbage-payload", 150))
 	case 16:
 		return tlsref.ECHOuter(1, 1, 42, make([]byte, 32), tlsref.DetBytes("garbage-payload", 150))
+	case 18:
+		return tlsref.ECHOuter(2, 1, 42, tlsref.DetBytes("garbage-enc", 32), tlsref.DetBytes("garbage-payload", 150))
+	case 19:
+		return tlsref.ECHOuter(1, 4, 42, tlsref.DetBytes("garbage-enc", 32), tlsref.DetBytes("garbage-payload", 150))
+	case 20:
+		return tlsref.ECHOuter(1, 0xffff, 42, tlsref.DetBytes("garbage-enc", 32), tlsref.DetBytes("garbage-payload", 150))
+	case 21:
+		return tlsref.ALPN("\x0a\x0a", "h2", "\xea\xea", "http/1.1")
 	case 17:
 		lo, _ := hex.DecodeString("e0eb7a7c3b41b8ae1656e3faf19fc46ada098deb9c32b1fd866205165f49b800")
 		return tlsref.ECHOuter(1, 1, 42, lo, tlsref.DetBytes("garbage-payload", 150))
@@ -80,9 +92,9 @@ func poolExt(i int) tlsref.Ext {
 }
 
 func isSV(i int) bool  { return i == 2 || i == 3 || i == 4 || i == 10 }
-func isECH(i int) bool { return i == 8 || i == 9 || i >= 13 }
+func isECH(i int) bool { return i == 8 || i == 9 || i >= 13 && i <= 20 }
 func isALPN(i int) bool {
-	return i == 1 || i == 11
+	return i == 1 || i == 11 || i == 21
 }
 
 func ciphers(kind int) []byte {
@@ -219,7 +231,11 @@ func Run(r *ev.Run) {
 	// ---- ECH extensions that name a held config id but whose encapsulated key cannot be used (wrong length, all-zero,
 	// low-order point): an undecryptable payload like any other, at every position, with and without TLS 1.3 ----
 	for x := productPool; x < len(poolNames); x++ {
-		for _, exts := range [][]int{{0, 2, x}, {x, 0, 2}, {0, x, 2}, {x}, {0, 1, 3, x, 5}, {12, x, 4}} {
+		lists := [][]int{{0, 2, x}, {x, 0, 2}, {0, x, 2}, {x}, {0, 1, 3, x, 5}, {12, x, 4}}
+		if isALPN(x) {
+			lists = [][]int{{0, 2, x}, {x}, {x, 12, 3, 9}, {0, x, 4}}
+		}
+		for _, exts := range lists {
 			for ksi := range ks {
 				for _, ver := range []uint16{0x0301, 0x0303} {
 					evalHello(r, helloCase{Version: ver, SID: 32, Exts: exts, KeySet: ksi}, ks, nil, "unusable-enc")
@@ -337,7 +353,8 @@ func Run(r *ev.Run) {
 			frs = append(frs, fr{fmt.Sprintf("small%v", cuts), tlsref.Fragment(0x0301, msg, cuts...), small})
 		}
 		// messages of exactly 2^14 bytes and one byte either side (one record / two records as the client must frame them), and 2*2^14
-		for _, target := range []int{16383, 16384, 16385, 32768} {
+		// ... and the largest hello crypto/tls accepts: a handshake body of exactly 65536 bytes (message of 65540), and one byte less
+		for _, target := range []int{16383, 16384, 16385, 32768, 65539, 65540} {
 			h := helloCase{Version: 0x0303, SID: 32, Exts: []int{0, 1, 2}}.build()
 			h.Exts = append(h.Exts, tlsref.Opaque(0x6b6b, 0))
 			pad := target - len(h.Msg())
